@@ -70,6 +70,9 @@ func (s *hSys) run(h, kind, lid int, script []hAct, x int) (int, bool) {
 		s.probe = append(s.probe, lid)
 		return x, false
 	}
+	if len(s.out) > 20000 {
+		panic("emission output cap exceeded")
+	}
 	s.out = append(s.out, wire.R("call").I("d", s.depth-1).I("h", h).I("lid", lid).I("x", x))
 	for _, a := range script {
 		switch a.kind {
@@ -83,6 +86,10 @@ func (s *hSys) run(h, kind, lid int, script []hAct, x int) (int, bool) {
 			}
 		case "emit":
 			s.emit(a.a, a.b)
+		case "emitdec": // re-enter (possibly the same handler) with the payload minus one, while it is positive
+			if x > 0 {
+				s.emit(a.a, x-1)
+			}
 		}
 	}
 	return x, false
@@ -214,6 +221,7 @@ func (handlerComp) Gen(r *rand.Rand, tier string, n int) []*wire.Case {
 	mk("d-prio-order", mkh(1), sub(0, 1, 5, ""), sub(0, 2, -1, ""), sub(0, 3, 3, ""), sub(0, 4, 3, ""), sub(0, 5, -1, ""), em(0, 7))
 	mk("d-mutable", mkh(2), sub(0, 1, 2, "mut:10"), sub(0, 2, 1, "mut:1"), sub(0, 3, 3, "mut:100"), em(0, 0), em(0, 5))
 	mk("d-cancel", mkh(3), sub(0, 1, 1, ""), sub(0, 2, 2, "cancel"), sub(0, 3, 3, ""), em(0, 1), sub(0, 4, 0, "cancel"), em(0, 2))
+	mk("d-reentrant", mkh(0), mkh(2), sub(0, 1, 0, "emitdec:0"), sub(0, 2, 0, ""), sub(0, 3, 0, "emitdec:1"), sub(1, 4, 1, "mut:-1;emitdec:1"), sub(1, 5, 2, "emitdec:1"), em(0, 1), em(0, 2), em(1, 2))
 	mk("d-nested", mkh(1), mkh(2), mkh(3), mkh(0), sub(0, 1, 1, "emit:1:5;emit:3:9"), sub(0, 2, 2, ""), sub(1, 3, 1, "mut:2;emit:2:1"), sub(2, 4, 1, "emit:3:4;cancel"),
 		sub(3, 5, 0, ""), em(0, 1), em(1, 2))
 	{ // more than 12 listeners: beyond the insertion-sort range of sort.Sort
@@ -232,6 +240,10 @@ func (handlerComp) Gen(r *rand.Rand, tier string, n int) []*wire.Case {
 		}
 		lid := 0
 		l := 4 + r.Intn(30)
+		reentrant := i%3 == 0 // a third of the cases have listeners that re-enter handlers (bounded by small payloads)
+		if reentrant {
+			l = 4 + r.Intn(8)
+		}
 		for j := 0; j < l; j++ {
 			h := r.Intn(nh)
 			if r.Intn(3) != 0 {
@@ -240,20 +252,38 @@ func (handlerComp) Gen(r *rand.Rand, tier string, n int) []*wire.Case {
 				for a := 0; a < r.Intn(3); a++ {
 					switch r.Intn(4) {
 					case 0:
-						acts = append(acts, fmt.Sprintf("mut:%d", pick(r, 1, 10, 100, -7)))
+						if reentrant { // payloads must not grow under re-entry
+							acts = append(acts, fmt.Sprintf("mut:%d", pick(r, -1, -7, 0)))
+						} else {
+							acts = append(acts, fmt.Sprintf("mut:%d", pick(r, 1, 10, 100, -7)))
+						}
 					case 1:
 						if r.Intn(3) == 0 {
 							acts = append(acts, "cancel")
 						}
+					case 2:
+						if !reentrant {
+							continue
+						}
+						// re-entrant: any handler, including this one; bounded by the payload
+						acts = append(acts, fmt.Sprintf("emitdec:%d", pick(r, h, h, h+r.Intn(nh-h)))) // never to a lower handler: (handler, payload) decreases lexicographically
 					default:
 						if h+1 < nh { // only to higher handlers: emissions form a DAG and terminate
-							acts = append(acts, fmt.Sprintf("emit:%d:%d", h+1+r.Intn(nh-h-1), r.Intn(50)))
+							y := r.Intn(50)
+							if reentrant {
+								y = r.Intn(4)
+							}
+							acts = append(acts, fmt.Sprintf("emit:%d:%d", h+1+r.Intn(nh-h-1), y))
 						}
 					}
 				}
 				ops = append(ops, sub(h, lid, pick(r, 0, 0, 1, 1, 2, -1, 100, -100), strings.Join(acts, ";")))
 			} else {
-				ops = append(ops, em(pick(r, h, h, r.Intn(nh+1)), r.Intn(100)))
+				x := r.Intn(100)
+				if reentrant {
+					x = r.Intn(4)
+				}
+				ops = append(ops, em(pick(r, h, h, r.Intn(nh+1)), x))
 			}
 		}
 		mk(fmt.Sprintf("r%d", i), ops...)
